@@ -52,6 +52,10 @@ NewTags(f, s, ev, s2, old) ==
           THEN {"global-change-after-equal-drop"} ELSE {})
     \cup (IF ev.a \in {"Configure", "Reconfigure"} /\ "drop-equal-subpopt" \in old /\ "popt" \in DOMAIN ev.D /\ ev.D["popt"] # s.v /\ s.sp = None
           THEN {"parent-change-after-equal-drop"} ELSE {})
+    \* the subproject's own choice list changes while the user's explicit value for the subproject exists
+    \cup (IF sync /\ s2.sch # s.sch /\ s.sp # None /\ s.sp \in s2.sch /\ s.sp # s2.v THEN {"subchoice-edit-keeps-explicit-value"} ELSE {})
+    \cup (IF sync /\ s2.sch # s.sch /\ s.sp # None /\ s.sp \notin s2.sch THEN {"subchoice-edit-invalidates-explicit-value"} ELSE {})
+    \cup (IF sync /\ s2.sch # s.sch /\ s.sp = None THEN {"subchoice-edit-while-yielding"} ELSE {})
     \cup (IF ev.a = "Reconfigure" /\ (s.ch # f.ch \/ (s.x # None) # f.x) THEN {"reconfigure-after-edit"} ELSE {})
     \cup (IF ev.a = "Configure" /\ (s.ch # f.ch \/ (s.x # None) # f.x) THEN {"configure-after-edit"} ELSE {})
     \cup (IF ev.a \in {"Configure", "Reconfigure"} /\ "dl" \in DOMAIN ev.D /\ s.subdl # None THEN {"global-change-under-override"} ELSE {})
@@ -92,7 +96,9 @@ XoptIsLastGivenElseDefault ==
 \* dropping an override returns the subproject to the inherited value; a yielding option takes the parent's value
 DropOverrideInherits ==
     st.exists => /\ Proj(st).subdl = (IF Given("subdl") = None THEN st.dl ELSE Given("subdl"))
-                 /\ Proj(st).sp = (IF Given("subpopt") = None THEN st.v ELSE Given("subpopt"))
+                 /\ (~HasEdit(hist, {"subchoices"}) => Proj(st).sp = (IF Given("subpopt") = None THEN st.v ELSE Given("subpopt")))
+                 /\ (Given("subpopt") = None => Proj(st).sp = st.v)
+                 /\ (Given("subpopt") # None => st.sp # None)          \* an explicit value stays explicit until -U
                  /\ Proj(st).sf = (IF Given("subflag") = None THEN FlagParent ELSE Given("subflag"))
 RecordedCmdlineIsWhatTheUserGave == st.exists => \A k \in Keys : st.cmd[k] = Given(k)
 
@@ -107,6 +113,12 @@ WipeIsFreshSetupWithWhatTheUserGave ==
 ChoiceChangeKeepsValidValue ==
     [][(Stepped /\ st.exists /\ st'.exists /\ st'.ch # st.ch /\ Last(hist').a # "Wipe" /\ "popt" \notin DOMAIN Last(hist').D)
           => st'.v = (IF st.v \in st'.ch THEN st.v ELSE file'.def)]_vars
+\* the subproject's own option file: the value the user gave the subproject explicitly is kept when still a choice,
+\* else replaced by the subproject's default; it never goes back to following the parent without -U
+SubChoiceChangeKeepsExplicitValue ==
+    [][(Stepped /\ st.exists /\ st'.exists /\ st'.sch # st.sch /\ Last(hist').a # "Wipe" /\ "subpopt" \notin DOMAIN Last(hist').D
+          /\ ~(Last(hist').a = "ConfigureU" /\ Last(hist').k = "subpopt"))
+          => st'.sp = (IF st.sp = None THEN None ELSE IF st.sp \in st'.sch THEN st.sp ELSE SubDefault)]_vars
 \* after an edited range has been processed the stored value lies inside it: kept when still inside, else the default
 RangeChangeKeepsValidValue ==
     [][(Stepped /\ st.exists /\ st'.exists /\ st'.lr # st.lr /\ Last(hist').a # "Wipe" /\ "level" \notin DOMAIN Last(hist').D)
@@ -121,7 +133,7 @@ OnlyAskedValuesChange ==
           LET ev == Last(hist') IN
           /\ (st'.dl # st.dl => "dl" \in DOMAIN ev.D)
           /\ (st'.subdl # st.subdl => ("subdl" \in DOMAIN ev.D \/ (ev.a = "ConfigureU" /\ ev.k = "subdl")))
-          /\ (st'.sp # st.sp => ("subpopt" \in DOMAIN ev.D \/ (ev.a = "ConfigureU" /\ ev.k = "subpopt")))
+          /\ (st'.sp # st.sp => ("subpopt" \in DOMAIN ev.D \/ (ev.a = "ConfigureU" /\ ev.k = "subpopt") \/ st'.sch # st.sch))
           /\ (st'.sf # st.sf => ("subflag" \in DOMAIN ev.D \/ (ev.a = "ConfigureU" /\ ev.k = "subflag")))
           /\ (st'.v # st.v => ("popt" \in DOMAIN ev.D \/ st'.ch # st.ch))
           /\ (st'.lv # st.lv => ("level" \in DOMAIN ev.D \/ st'.lr # st.lr))
